@@ -770,7 +770,7 @@ pub fn run(ctx: &Ctx) {
             }
         })
         .collect();
-    let cases = ctx.cases(15_000, 1_500_000);
+    let cases = ctx.cases(40_000, 2_000_000);
     let out = run_prop(ctx, 18, cases, strategy, |c| {
         let (origin, text) = render(c, &clean);
         rep.eval();
